@@ -35,7 +35,9 @@ func schedCheck(r *vsched.Result) explore.Verdict {
 // outgoing path keeps per-connection scratch state (a wrap buffer that only
 // grows), so what a wrapping packet looks like on the wire may depend on the
 // packets that wrapped before it.
-func c17stream(c *core.Ctx) {
+func c17stream(c *core.Ctx) { streamLaps(c, "C17") }
+
+func streamLaps(c *core.Ctx, prop string) {
 	patterns := map[string][]int{
 		"mixed":      {6000, 6000, 8000, 6000, 6000, 1000, 3000, 200},
 		"decreasing": {8000, 7000, 5000, 3000, 2000, 1200, 700, 300, 100, 20},
@@ -187,7 +189,7 @@ func c17stream(c *core.Ctx) {
 			v = res.Failures[0]
 		}
 		if v != "" {
-			if c.Violate("C17 stream "+pn+" :: "+violClass(v), core.Replay{Scenario: "stream " + pn, Message: v, Log: res.Log}) {
+			if c.Violate(prop+" stream "+pn+" :: "+violClass(v), core.Replay{Scenario: "stream " + pn, Message: v, Log: res.Log}) {
 				return
 			}
 		}
@@ -927,7 +929,9 @@ func smallChunkCases(thorough bool) []smallChunkCase {
 
 // c17smallChunk: see smallChunkBody (default schedule; C18 explores the same bodies under
 // deviations with the race detector).
-func c17smallChunk(c *core.Ctx) {
+func c17smallChunk(c *core.Ctx) { smallChunk(c, "C17") }
+
+func smallChunk(c *core.Ctx, prop string) {
 	for ni, sc := range smallChunkCases(c.Thorough()) {
 		if c.NShards > 1 && ni%c.NShards != c.Shard {
 			continue
@@ -958,7 +962,7 @@ func c17smallChunk(c *core.Ctx) {
 			v = "harness: the execution did not finish within the point limit"
 		}
 		if v != "" {
-			if c.Violate("C17 small-chunk :: "+violClass(v), core.Replay{Scenario: name, Message: v, Log: res.Log}) {
+			if c.Violate(prop+" small-chunk :: "+violClass(v), core.Replay{Scenario: name, Message: v, Log: res.Log}) {
 				return
 			}
 		}
@@ -1012,4 +1016,13 @@ func C17(c *core.Ctx) {
 	c17clientDisconnect(c)
 }
 
-func init() { core.Register("C17", C17) }
+func init() {
+	core.Register("C17", C17)
+	core.RegisterExtra("C14", func(c *core.Ctx) {
+		streamLaps(c, "C14")
+		if c.HasViolation() || c.Expired() {
+			return
+		}
+		smallChunk(c, "C14")
+	})
+}
